@@ -276,6 +276,11 @@ def tampers(rng, oracle, rec, others, n_flips=None):
         out.append(("r_plus_n", record_bytes(oracle, key, seq, pl, sort=False, sig=((int.from_bytes(sg[:32], "big") + SECP_N) % 2**256).to_bytes(32, "big") + sg[32:])[0]))
     for bad in (sg[:-1], sg + b"\x00", b"", sg[:32], sg + sg):
         out.append(("wrong_length_sig", record_bytes(oracle, key, seq, pl, sort=False, sig=bad)[0]))
+    # one byte after / before the signature: recovery ids (0, 1, 27, 28, 31..34), sighash-like and other marker bytes
+    for x in (0, 1, 2, 3, 27, 28, 29, 30, 31, 32, 35, 36, 0x80, 0x81, 0xff):
+        out.append(("sig_plus_trailing_byte", record_bytes(oracle, key, seq, pl, sort=False, sig=sg + bytes([x]))[0]))
+    for x in (0, 27, 28, 0x30, 0x04):
+        out.append(("sig_plus_leading_byte", record_bytes(oracle, key, seq, pl, sort=False, sig=bytes([x]) + sg)[0]))
     if key.scheme == "k" and len(sg) == 64:
         # the same (r, s) in ASN.1 DER, as other tooling serialises signatures
         out.append(("der_sig", record_bytes(oracle, key, seq, pl, sort=False, sig=der_sig(sg))[0]))
@@ -758,7 +763,7 @@ def near_valid_tval(rng, key, pubs):
 def rand_op(rng, keyslots, own_entry, pubs):
     """one op command line (without the leading 'op') — name slot fail args..."""
     slot = rng.choice(keyslots) if rng.random() < 0.25 else keyslots[0]
-    fail = "1" if rng.random() < 0.06 else "0"
+    fail = rng.choice(["1", "1", "3"]) if rng.random() < 0.07 else "0"
     def k_any():
         c0 = rng.random()
         if c0 < 0.12:
